@@ -8,7 +8,7 @@ from vt import core, gen
 from vt.core import Checker, lib, dense, fro
 
 RULE = ("Scalar expressions are generated as a chain of 0-2 tensor->tensor operations (+,-,* with another leaf, A@., .@A, "
-        "(A@A)@., scalar +,*,/ and reversed -, unary -, mprod, diag round trip, full slicing, pad+slice) followed by a "
+        "(A@A)@., scalar +,*,/ and reversed -, the same with a one-element tensor scalar that depends on tracked cores (x / dot(y,y)), unary -, mprod, diag round trip, full slicing, pad+slice) followed by a "
         "terminal (linear functional of full(), sum all/subset, dot full/axis, norm plain/squared, bilinear_form, "
         "apply_mask, mixed int/slice indexing, cat, pad, kron, rectangular mprod, rectangular TT-matrix product, "
         "TT-matrix @ dense, LinearLayerTT.forward) over small leaves (order 1-4, modes 1-3, ranks 1-2, float64); a "
@@ -22,7 +22,7 @@ FLOORS = {"quick": {"chain:2": 500, "grad_api": 300, "track:watch": 500, "operat
 ASSUMPTIONS = ["norm terminals are evaluated away from zero (non-differentiable there)", "real float64 only"]
 
 CHAIN_OPS = ["add", "sub", "mul", "matvec", "vecmat", "matmat_vec", "sadd", "smul", "sdiv", "rsub", "neg", "mprod", "diag_rt",
-             "slice_full", "pad_slice"]
+             "slice_full", "pad_slice", "sdiv_dep", "smul_dep", "sadd_dep", "ssub_dep"]
 TERMINALS = ["full_lin", "sum_all", "sum_subset", "dot", "dot_axis", "norm", "norm_sq", "bilinear", "mask", "slice_lin",
              "cat_lin", "pad_lin", "kron_lin", "mprod_rect", "rect_matvec", "dense_matvec", "layer"]
 
@@ -143,6 +143,14 @@ def evaluate(T, case, c, dense_mode):
             cur = cur * op["s"] if i % 2 == 0 else op["s"] * cur
         elif o == "sdiv":
             cur = cur / op["s"]
+        elif o in ("sdiv_dep", "smul_dep", "sadd_dep", "ssub_dep"):
+            # scalar given as a one-element tensor that itself depends on (possibly tracked) cores
+            used.add("x2")
+            sc = ((L["x2"] ** 2).sum() if dense_mode else T.dot(L["x2"], L["x2"])) + 1.0
+            if i % 2 == 1 and not dense_mode:
+                sc = sc.reshape([1])
+            cur = {"sdiv_dep": lambda: cur / sc, "smul_dep": lambda: cur * sc, "sadd_dep": lambda: cur + sc,
+                   "ssub_dep": lambda: cur - sc}[o]()
         elif o == "rsub":
             cur = op["s"] - cur
         elif o == "neg":
